@@ -87,4 +87,45 @@ def generate(src: Path) -> dict:
             out.append(f"def {name}_{order} : {t} := {lean_list(val)}")
             out.append("")
     out.append("end Gen.Q.Tables\n")
-    return {"Tables": "\n".join(out)}
+    res = {"Tables": "\n".join(out)}
+    res.update(jtables(src))
+    return res
+
+
+CHUNK = 100
+
+
+def jtables(src: Path) -> dict:
+    """Abscissae of the shipped thermal-integral tables, in overlapping chunks of CHUNK+1 entries
+    (chunk i = rows i*CHUNK .. (i+1)*CHUNK inclusive), so that `decide +kernel` can check each chunk and a
+    generic lemma lifts the chunk facts to the whole table.  Values are parsed too: a non-finite or
+    non-numeric entry is a generation failure."""
+    out = ["/- GENERATED from src/WallGo/PotentialTools/Data/InterpolationTable_J{b,f}.txt. Do not edit. -/", "",
+           "namespace Gen.Q.JTables", ""]
+    for tag in ("Jb", "Jf"):
+        path = src / "PotentialTools" / "Data" / f"InterpolationTable_{tag}.txt"
+        xs = []
+        for ln, line in enumerate(path.read_text().splitlines(), 1):
+            if not line.strip():
+                continue
+            cols = line.split()
+            if len(cols) != 3:
+                raise TableError(f"{path.name}:{ln}: expected 3 columns")
+            try:
+                vals = [Fraction(c) for c in cols]       # rejects nan/inf/garbage
+            except (ValueError, ZeroDivisionError) as ex:
+                raise TableError(f"{path.name}:{ln}: non-finite or non-numeric entry ({ex})") from ex
+            xs.append(vals[0])
+        n = len(xs)
+        nch = (n - 1 + CHUNK - 1) // CHUNK
+        names = []
+        for i in range(nch):
+            ch = xs[i * CHUNK: min((i + 1) * CHUNK, n - 1) + 1]
+            names.append(f"{tag}X_{i}")
+            out.append(f"def {tag}X_{i} : List Rat := {lean_list(ch)}")
+        out.append(f"/-- rows of InterpolationTable_{tag}.txt -/")
+        out.append(f"def {tag}Rows : Nat := {n}")
+        out.append(f"def {tag}Chunks : List (List Rat) := [{', '.join(names)}]")
+        out.append("")
+    out.append("end Gen.Q.JTables\n")
+    return {"JTables": "\n".join(out)}
